@@ -1,4 +1,5 @@
 import Rangers.Proofs.LedgerExec
+set_option linter.unusedSimpArgs false
 /-! Transaction-level lemmas (C06). -/
 namespace Rangers.Ledger
 
@@ -9,13 +10,17 @@ theorem total_move (b : Bal) (src dst : Addr) (n : Nat) (h : n ≤ get b src) :
   have := (subBal_ok_of_le b src n h).2.1
   omega
 
-theorem processFee_total (b b' : Bal) (src : Addr) (h : processFee b src = some b') : total b' = total b := by
-  unfold processFee at h
-  by_cases c : get b src < txFee
+theorem processFeeWith_total (fee : Nat) (b b' : Bal) (src : Addr) (h : processFeeWith fee b src = some b') :
+    total b' = total b := by
+  unfold processFeeWith at h
+  by_cases c : get b src < fee
   · simp [c] at h
   · simp only [c, if_false, Option.some.injEq] at h
     subst h
-    exact total_move b src feeAccount txFee (by omega)
+    exact total_move b src feeAccount fee (by omega)
+
+theorem processFee_total (b b' : Bal) (src : Addr) (h : processFee b src = some b') : total b' = total b :=
+  processFeeWith_total txFee b b' src h
 
 theorem transferBalance_total (b b' : Bal) (src tgt : Addr) (a : Amount)
     (h : transferBalance b src tgt a = some b') : total b' = total b := by
@@ -23,7 +28,7 @@ theorem transferBalance_total (b b' : Bal) (src tgt : Addr) (a : Amount)
   cases a with
   | err => simp at h
   | val v =>
-    simp only at h
+    try simp only at h
     by_cases hn : v < 0
     · simp [hn] at h
     · simp only [hn, if_false] at h
@@ -59,7 +64,7 @@ theorem changeAssets_total (src : Addr) : ∀ (ts : List (Addr × Amount)) (b b'
 
 theorem chargeGas_total (b : Bal) (src : Addr) (g : Nat) : total (chargeGas b src g) = total b := by
   unfold chargeGas
-  simp only
+  try simp only
   split
   · exact total_move b src feeAccount (get b src) (Nat.le_refl _)
   · rename_i h; exact total_move b src feeAccount (gasCost g) (by omega)
@@ -81,8 +86,9 @@ theorem refundMove_total : ∀ (l : List (Addr × Nat)) (b : Bal),
 /-! ### top-level EVM entry points -/
 
 theorem evmCallTop_mass (code : Code) (fuel : Nat) (origin addr : Addr) (v : Int) (s : St) :
-    mass (evmCallTop code fuel origin addr v s).1 = mass s := by
+    mass (evmCallTop code true fuel origin addr v s).1 = mass s := by
   unfold evmCallTop
+  simp only [revertToJ_true]
   split
   · rfl
   · rename_i hg
@@ -105,14 +111,15 @@ theorem evmCallTop_mass (code : Code) (fuel : Nat) (origin addr : Addr) (v : Int
           have hz' : (n != 0) = true := by simpa using z
           rw [hz']
           simpa using hg
-    simp only
+    try simp only
     split
     · rw [exec_mass, hs]
     · simp only; rw [mass_revertTo]
 
 theorem evmCreateTop_mass (code : Code) (fuel : Nat) (origin : Addr) (v : Int) (init : Script) (s : St) :
-    mass (evmCreateTop code fuel origin v init s).1 = mass s := by
+    mass (evmCreateTop code true fuel origin v init s).1 = mass s := by
   unfold evmCreateTop
+  simp only [revertToJ_true]
   split
   · rfl
   · rename_i hg
@@ -124,15 +131,16 @@ theorem evmCreateTop_mass (code : Code) (fuel : Nat) (origin : Addr) (v : Int) (
         simp [this] at hg
       · obtain ⟨n, rfl⟩ := Int.eq_ofNat_of_zero_le (Int.not_lt.mp hn)
         exact mass_transfer' { s with fresh := s.fresh + 1 } origin (freshAddr s.fresh) n (by simpa using hg)
-    simp only
+    try simp only
     split
     · rw [exec_mass]; exact hs
     · simp only; rw [mass_revertTo]; rfl
 
-theorem contractExecute_mass (code : Code) (fuel : Nat) (t : ContractTx) (raw : Nat) (v : Int) (s : St) :
-    mass (contractExecute code fuel t raw v s).1 = mass s := by
+theorem contractExecute_mass (fl : Flags) (hj : fl.p002 = true) (code : Code) (fuel : Nat) (t : ContractTx) (raw : Nat)
+    (v : Int) (s : St) : mass (contractExecute fl code fuel t raw v s).1 = mass s := by
   unfold contractExecute
-  simp only
+  rw [hj]
+  try simp only
   split
   · rfl
   · have key : ∀ r : St × Bool, mass r.1 = mass s →
@@ -142,8 +150,16 @@ theorem contractExecute_mass (code : Code) (fuel : Nat) (t : ContractTx) (raw : 
       simp only
       rw [chargeGas_total]; exact hr
     cases ht : t.target with
-    | none => exact key _ (evmCreateTop_mass code fuel t.src v t.init s)
-    | some a => exact key _ (evmCallTop_mass code fuel t.src a v s)
+    | none =>
+      try simp only
+      split
+      · exact evmCreateTop_mass code fuel t.src v t.init s
+      · exact key _ (evmCreateTop_mass code fuel t.src v t.init s)
+    | some a =>
+      try simp only
+      split
+      · exact evmCallTop_mass code fuel t.src a v s
+      · exact key _ (evmCallTop_mass code fuel t.src a v s)
 
 /-! ### BeforeExecute of the contract executors -/
 
@@ -152,68 +168,74 @@ def beforeBal : (Status × Bal) ⊕ (Bal × Nat × Int) → Bal
   | .inl (_, b) => b
   | .inr (b, _, _) => b
 
-theorem contractBefore_total (b : Bal) (t : ContractTx) : total (beforeBal (contractBefore b t)) = total b := by
+theorem contractBefore_total (fl : Flags) (b : Bal) (t : ContractTx) :
+    total (beforeBal (contractBefore fl b t)) = total b := by
   unfold contractBefore
+  try simp only
   split
   · rfl
-  · cases hf : processFee b t.src with
+  · cases hf : processFeeWith (txFeeOf fl) b t.src with
     | none => rfl
     | some b1 =>
-      have h1 := processFee_total b b1 t.src hf
-      simp only
+      have h1 := processFeeWith_total _ b b1 t.src hf
+      try simp only
       split
       · exact h1
-      · cases parseGasLimit t.gasLimit with
+      · cases parseGasLimit fl t.gasLimit with
         | none => exact h1
         | some raw =>
-          simp only
+          try simp only
           cases strToBigInt t.value with
           | err => exact h1
           | val v =>
-            simp only
+            try simp only
             split
             · exact h1
             · exact h1
 
-theorem execTx_mass_operator (fuel : Nat) (w : World) (src : Addr) (dataOk : Bool) (targets : List (Addr × Amount)) :
+theorem execTx_mass_operator (fuel : Nat) (w : World) (hj : w.fl.p002 = true) (src : Addr) (dataOk : Bool)
+    (targets : List (Addr × Amount)) :
     mass (execTx fuel w (.operator src dataOk targets)).1.st = mass w.st := by
   simp only [execTx]
-  cases hf : processFee w.st.bal src with
+  cases hf : processFeeWith (txFeeOf w.fl) w.st.bal src with
   | none => rfl
   | some b1 =>
-    have h1 := processFee_total _ _ _ hf
-    simp only
+    have h1 := processFeeWith_total _ _ _ _ hf
+    try simp only
     split
     · unfold mass; simp only; rw [h1]
     · cases hc : changeAssets b1 src targets with
-      | none => unfold mass; simp only; rw [h1]
+      | none => (try rw [hj]); unfold mass; simp only [if_true]; rw [h1]
       | some b2 =>
         have h2 := changeAssets_total src targets b1 b2 hc
         unfold mass; simp only; rw [h2, h1]
 
-theorem execTx_mass_contract (fuel : Nat) (w : World) (t : ContractTx) :
+theorem execTx_mass_contract (fuel : Nat) (w : World) (hj : w.fl.p002 = true) (t : ContractTx) :
     mass (execTx fuel w (.contract t)).1.st = mass w.st := by
   simp only [execTx]
-  have hb := contractBefore_total w.st.bal t
-  cases hcb : contractBefore w.st.bal t with
+  have hb := contractBefore_total w.fl w.st.bal t
+  cases hcb : contractBefore w.fl w.st.bal t with
   | inl p =>
     obtain ⟨status, b⟩ := p
     rw [hcb] at hb
     simp only [beforeBal] at hb
-    simp only
+    try simp only
     unfold mass; simp only; rw [hb]
   | inr p =>
     obtain ⟨b1, raw, v⟩ := p
     rw [hcb] at hb
     simp only [beforeBal] at hb
-    simp only
-    have hx := contractExecute_mass w.code fuel t raw v { w.st with bal := b1 }
+    try simp only
+    have hx := contractExecute_mass w.fl hj w.code fuel t raw v { w.st with bal := b1 }
     have hs1 : mass ({ w.st with bal := b1 } : St) = mass w.st := by unfold mass; simp only; rw [hb]
     split
     · simp only; rw [hx, hs1]
-    · simp only
+    · rw [hj]
+      simp only [revertToJ_true]
       split
-      · unfold mass; simp only [revertTo]; rw [deductGasFee_total, hb]
+      · split
+        · unfold mass; simp only [revertTo]; rw [deductGasFee_total, hb]
+        · unfold mass; simp only [revertTo]; rw [hb]
       · unfold mass; simp only [revertTo]; rw [hb]
 
 /-! ### miner transactions -/
@@ -247,9 +269,9 @@ theorem mass_minerApply (s s2 : St) (src : Addr) (id typ stake : Nat) (account :
               have h1 := (subBal_ok_of_le s.bal src (toWei stake) (by omega)).2.1
               have h2 := stakeSum_regSet_new s.reg
                 { id := id, account := account, stake := stake, typ := typ, visible := false } hn
-              simp only at h2
+              try simp only at h2
               unfold mass
-              simp only
+              try simp only
               omega
 
 theorem mass_minerAdd (s s2 : St) (src : Addr) (id delta : Nat) (h : minerAdd s src id delta = some s2) :
@@ -280,7 +302,7 @@ theorem mass_minerRefund (code : Code) (s s2 : St) (src : Addr) (id : Nat) (amou
   · cases amount with
     | none => simp at h
     | some a =>
-      simp only at h
+      try simp only at h
       cases hg : getRefundStake s.reg (hasCodeIn code) id src a with
       | none => simp [hg] at h
       | some p =>
@@ -291,7 +313,7 @@ theorem mass_minerRefund (code : Code) (s s2 : St) (src : Addr) (id : Nat) (amou
         have h3 := getRefundStake_sum _ _ _ _ _ _ _ _ hg
         rw [escrowTotal_single]
         unfold mass
-        simp only
+        try simp only
         omega
 
 theorem mass_node_update (s : St) (src newAcct : Addr) (m' : MinerRec) (nf : Nat)
@@ -300,9 +322,9 @@ theorem mass_node_update (s : St) (src newAcct : Addr) (m' : MinerRec) (nf : Nat
       + (nf : Int) = mass s := by
   have h1 := (subBal_ok_of_le s.bal src nf hle).2.1
   have h2 := stakeSum_regSet s.reg m' { m' with account := newAcct } hg
-  simp only at h2
+  try simp only at h2
   unfold mass
-  simp only
+  try simp only
   omega
 
 theorem mass_nodeTxWith (fee : Nat) (s s2 : St) (src newAcct : Addr) (mainOk : Bool)
@@ -354,7 +376,7 @@ theorem burned_minerRefund (code : Code) (s s2 : St) (src : Addr) (id : Nat) (am
   · cases amount with
     | none => simp at h
     | some a =>
-      simp only at h
+      try simp only at h
       cases hg : getRefundStake s.reg (hasCodeIn code) id src a with
       | none => simp [hg] at h
       | some p =>
@@ -392,10 +414,10 @@ def wmass (w : World) : Int := mass w.st + (escrowTotal w.ctx.pending : Int)
 theorem execTx_pending_operator (fuel : Nat) (w : World) (src : Addr) (dataOk : Bool) (targets : List (Addr × Amount)) :
     (execTx fuel w (.operator src dataOk targets)).1.ctx = w.ctx := by
   simp only [execTx]
-  cases processFee w.st.bal src with
+  cases processFeeWith (txFeeOf w.fl) w.st.bal src with
   | none => rfl
   | some b1 =>
-    simp only
+    try simp only
     split
     · rfl
     · cases changeAssets b1 src targets <;> rfl
@@ -403,37 +425,37 @@ theorem execTx_pending_operator (fuel : Nat) (w : World) (src : Addr) (dataOk : 
 theorem execTx_pending_contract (fuel : Nat) (w : World) (t : ContractTx) :
     (execTx fuel w (.contract t)).1.ctx.pending = w.ctx.pending := by
   simp only [execTx]
-  cases hcb : contractBefore w.st.bal t with
+  cases hcb : contractBefore w.fl w.st.bal t with
   | inl p => obtain ⟨status, b⟩ := p; rfl
   | inr p =>
     obtain ⟨b1, raw, v⟩ := p
-    simp only
-    cases (contractExecute w.code fuel t raw v { w.st with bal := b1 }).2.2 <;> (simp only; split <;> rfl)
+    try simp only
+    cases (contractExecute w.fl w.code fuel t raw v { w.st with bal := b1 }).2.2 <;> (simp only; split <;> rfl)
 
 /-- One iteration of the transaction loop: balances + burned + stake + escrow (+ pending refunds) − excess is
     invariant, except for the 10 RPG of a successful OperatorNode transaction. -/
-theorem execTx_mass (fuel : Nat) (w : World) (tx : Tx) :
+theorem execTx_mass (fuel : Nat) (w : World) (hj : w.fl.p002 = true) (tx : Tx) :
     wmass (execTx fuel w tx).1 + (nodeFeeBy tx (execTx fuel w tx).2 : Int) = wmass w := by
   cases tx with
   | operator src dataOk targets =>
-    have h1 := execTx_mass_operator fuel w src dataOk targets
+    have h1 := execTx_mass_operator fuel w hj src dataOk targets
     have h2 := execTx_pending_operator fuel w src dataOk targets
     unfold wmass
     simp only [nodeFeeBy]
     rw [h1, h2]; simp
   | contract t =>
-    have h1 := execTx_mass_contract fuel w t
+    have h1 := execTx_mass_contract fuel w hj t
     have h2 := execTx_pending_contract fuel w t
     unfold wmass
     simp only [nodeFeeBy]
     rw [h1, h2]; simp
   | apply src id typ stake account keysOk =>
     simp only [execTx]
-    cases hf : processFee w.st.bal src with
+    cases hf : processFeeWith (txFeeOf w.fl) w.st.bal src with
     | none => simp [nodeFeeBy]
     | some b1 =>
-      have hb := mass_setBal w.st b1 (processFee_total _ _ _ hf)
-      simp only
+      have hb := mass_setBal w.st b1 (processFeeWith_total _ _ _ _ hf)
+      try simp only
       cases hm : minerApply { w.st with bal := b1 } src id typ stake account keysOk with
       | none => simp only [nodeFeeBy, wmass]; rw [hb]; simp
       | some s2 =>
@@ -441,11 +463,11 @@ theorem execTx_mass (fuel : Nat) (w : World) (tx : Tx) :
         simp only [nodeFeeBy, wmass]; rw [this, hb]; simp
   | addStake src id delta =>
     simp only [execTx]
-    cases hf : processFee w.st.bal src with
+    cases hf : processFeeWith (txFeeOf w.fl) w.st.bal src with
     | none => simp [nodeFeeBy]
     | some b1 =>
-      have hb := mass_setBal w.st b1 (processFee_total _ _ _ hf)
-      simp only
+      have hb := mass_setBal w.st b1 (processFeeWith_total _ _ _ _ hf)
+      try simp only
       cases hm : minerAdd { w.st with bal := b1 } src id delta with
       | none => simp only [nodeFeeBy, wmass]; rw [hb]; simp
       | some s2 =>
@@ -453,11 +475,11 @@ theorem execTx_mass (fuel : Nat) (w : World) (tx : Tx) :
         simp only [nodeFeeBy, wmass]; rw [this, hb]; simp
   | refund src id amount signed =>
     simp only [execTx]
-    cases hf : processFee w.st.bal src with
+    cases hf : processFeeWith (txFeeOf w.fl) w.st.bal src with
     | none => simp [nodeFeeBy]
     | some b1 =>
-      have hb := mass_setBal w.st b1 (processFee_total _ _ _ hf)
-      simp only
+      have hb := mass_setBal w.st b1 (processFeeWith_total _ _ _ _ hf)
+      try simp only
       cases hm : minerRefund w.code { w.st with bal := b1 } src id amount signed with
       | none => simp only [nodeFeeBy, wmass]; rw [hb]; simp
       | some p =>
@@ -469,13 +491,13 @@ theorem execTx_mass (fuel : Nat) (w : World) (tx : Tx) :
         omega
   | node src newAcct mainOk =>
     simp only [execTx]
-    cases hf : processFee w.st.bal src with
+    cases hf : processFeeWith (txFeeOf w.fl) w.st.bal src with
     | none => simp [nodeFeeBy]
     | some b1 =>
-      have hb := mass_setBal w.st b1 (processFee_total _ _ _ hf)
-      simp only
+      have hb := mass_setBal w.st b1 (processFeeWith_total _ _ _ _ hf)
+      try simp only
       cases hm : nodeTx { w.st with bal := b1 } src newAcct mainOk with
-      | none => simp only [nodeFeeBy, wmass]; rw [hb]; simp
+      | none => simp only [nodeFeeBy, wmass, hj, Bool.true_or, if_true]; rw [hb]; simp
       | some s2 =>
         have := mass_nodeTx _ _ _ _ _ hm
         rw [hb] at this
@@ -487,139 +509,154 @@ theorem execTx_mass (fuel : Nat) (w : World) (tx : Tx) :
 theorem chargeGas_other (b : Bal) (src : Addr) (g : Nat) (a : Addr) (h1 : a ≠ src) (h2 : a ≠ feeAccount) :
     get (chargeGas b src g) a = get b a := by
   unfold chargeGas
-  simp only
+  try simp only
   rw [get_addBal_other _ _ _ _ h2, get_subBal_other _ _ _ _ h1]
 
-theorem processFee_other (b b' : Bal) (src : Addr) (a : Addr) (h : processFee b src = some b')
+theorem processFee_other (fee : Nat) (b b' : Bal) (src : Addr) (a : Addr) (h : processFeeWith fee b src = some b')
     (h1 : a ≠ src) (h2 : a ≠ feeAccount) : get b' a = get b a := by
-  unfold processFee at h
-  by_cases c : get b src < txFee
+  unfold processFeeWith at h
+  by_cases c : get b src < fee
   · simp [c] at h
   · simp only [c, if_false, Option.some.injEq] at h
     subst h
     rw [get_addBal_other _ _ _ _ h2, get_subBal_other _ _ _ _ h1]
 
-theorem contractBefore_other (b : Bal) (t : ContractTx) (a : Addr) (h1 : a ≠ t.src) (h2 : a ≠ feeAccount) :
-    get (beforeBal (contractBefore b t)) a = get b a := by
+theorem contractBefore_other (fl : Flags) (b : Bal) (t : ContractTx) (a : Addr) (h1 : a ≠ t.src) (h2 : a ≠ feeAccount) :
+    get (beforeBal (contractBefore fl b t)) a = get b a := by
   unfold contractBefore
+  try simp only
   split
   · rfl
-  · cases hf : processFee b t.src with
+  · cases hf : processFeeWith (txFeeOf fl) b t.src with
     | none => rfl
     | some b1 =>
-      have k := processFee_other b b1 t.src a hf h1 h2
-      simp only
+      have k := processFee_other _ b b1 t.src a hf h1 h2
+      try simp only
       split
       · exact k
-      · cases parseGasLimit t.gasLimit with
+      · cases parseGasLimit fl t.gasLimit with
         | none => exact k
         | some raw =>
-          simp only
+          try simp only
           cases strToBigInt t.value with
           | err => exact k
           | val v =>
-            simp only
+            try simp only
             split
             · exact k
             · exact k
 
-theorem failed_contract_other (fuel : Nat) (w : World) (t : ContractTx)
+theorem failed_contract_other (fuel : Nat) (w : World) (hj : w.fl.p002 = true) (t : ContractTx)
     (hf : (execTx fuel w (.contract t)).2 ≠ .success) (a : Addr) (h1 : a ≠ t.src) (h2 : a ≠ feeAccount) :
     get (execTx fuel w (.contract t)).1.st.bal a = get w.st.bal a := by
   simp only [execTx] at hf ⊢
-  have hb := contractBefore_other w.st.bal t a h1 h2
-  cases hcb : contractBefore w.st.bal t with
+  have hb := contractBefore_other w.fl w.st.bal t a h1 h2
+  cases hcb : contractBefore w.fl w.st.bal t with
   | inl p =>
     obtain ⟨status, b⟩ := p
     rw [hcb] at hb
     simp only [beforeBal] at hb
-    simp only
+    try simp only
     exact hb
   | inr p =>
     obtain ⟨b1, raw, v⟩ := p
     rw [hcb] at hb hf
     simp only [beforeBal] at hb
-    simp only at hf ⊢
+    try simp only at hf ⊢
     split
     · rename_i hs; simp [hs] at hf
-    · simp only
+    · rw [hj]
+      simp only [revertToJ_true]
       split
-      · simp only [revertTo, deductGasFee]; rw [chargeGas_other _ _ _ _ h1 h2]; exact hb
+      · split
+        · simp only [revertTo, deductGasFee]; rw [chargeGas_other _ _ _ _ h1 h2]; exact hb
+        · simp only [revertTo]; exact hb
       · simp only [revertTo]; exact hb
 
 /-! ### the burn counter is monotone over a transaction -/
 
 theorem evmCallTop_burned (code : Code) (fuel : Nat) (origin addr : Addr) (v : Int) (s : St) :
-    s.burned ≤ (evmCallTop code fuel origin addr v s).1.burned := by
+    s.burned ≤ (evmCallTop code true fuel origin addr v s).1.burned := by
   unfold evmCallTop
+  simp only [revertToJ_true]
   split
   · exact Nat.le_refl _
-  · simp only
+  · try simp only
     split
     · exact exec_burned_mono code origin fuel addr false _ { s with bal := vmTransfer s.bal origin addr v }
     · exact Nat.le_refl _
 
 theorem evmCreateTop_burned (code : Code) (fuel : Nat) (origin : Addr) (v : Int) (init : Script) (s : St) :
-    s.burned ≤ (evmCreateTop code fuel origin v init s).1.burned := by
+    s.burned ≤ (evmCreateTop code true fuel origin v init s).1.burned := by
   unfold evmCreateTop
+  simp only [revertToJ_true]
   split
   · exact Nat.le_refl _
-  · simp only
+  · try simp only
     split
     · exact exec_burned_mono code origin fuel _ false init
         { ({ s with fresh := s.fresh + 1 } : St) with bal := vmTransfer s.bal origin (freshAddr s.fresh) v }
     · exact Nat.le_refl _
 
-theorem contractExecute_burned (code : Code) (fuel : Nat) (t : ContractTx) (raw : Nat) (v : Int) (s : St) :
-    s.burned ≤ (contractExecute code fuel t raw v s).1.burned := by
+theorem contractExecute_burned (fl : Flags) (hj : fl.p002 = true) (code : Code) (fuel : Nat) (t : ContractTx) (raw : Nat) (v : Int) (s : St) :
+    s.burned ≤ (contractExecute fl code fuel t raw v s).1.burned := by
   unfold contractExecute
-  simp only
+  rw [hj]
+  try simp only
   split
   · exact Nat.le_refl _
   · have key : ∀ r : St × Bool, s.burned ≤ r.1.burned →
         s.burned ≤ ({ r.1 with bal := chargeGas r.1.bal t.src t.gasUsed } : St).burned := by
       intro r hr
-      simp only
+      try simp only
       exact hr
     cases ht : t.target with
-    | none => exact key _ (evmCreateTop_burned code fuel t.src v t.init s)
-    | some a => exact key _ (evmCallTop_burned code fuel t.src a v s)
+    | none =>
+      try simp only
+      split
+      · exact evmCreateTop_burned code fuel t.src v t.init s
+      · exact key _ (evmCreateTop_burned code fuel t.src v t.init s)
+    | some a =>
+      try simp only
+      split
+      · exact evmCallTop_burned code fuel t.src a v s
+      · exact key _ (evmCallTop_burned code fuel t.src a v s)
 
-theorem execTx_burned (fuel : Nat) (w : World) (tx : Tx) : w.st.burned ≤ (execTx fuel w tx).1.st.burned := by
+theorem execTx_burned (fuel : Nat) (w : World) (hj : w.fl.p002 = true) (tx : Tx) : w.st.burned ≤ (execTx fuel w tx).1.st.burned := by
   cases tx with
   | operator src dataOk targets =>
     simp only [execTx]
-    cases processFee w.st.bal src with
+    cases processFeeWith (txFeeOf w.fl) w.st.bal src with
     | none => exact Nat.le_refl _
     | some b1 =>
-      simp only
+      try simp only
       split
       · exact Nat.le_refl _
       · cases changeAssets b1 src targets <;> exact Nat.le_refl _
   | apply src id typ stake account keysOk =>
     simp only [execTx]
-    cases processFee w.st.bal src with
+    cases processFeeWith (txFeeOf w.fl) w.st.bal src with
     | none => exact Nat.le_refl _
     | some b1 =>
-      simp only
+      try simp only
       cases hm : minerApply { w.st with bal := b1 } src id typ stake account keysOk with
       | none => exact Nat.le_refl _
       | some s2 => simp only; rw [burned_minerApply _ _ _ _ _ _ _ _ hm]; exact Nat.le_refl _
   | addStake src id delta =>
     simp only [execTx]
-    cases processFee w.st.bal src with
+    cases processFeeWith (txFeeOf w.fl) w.st.bal src with
     | none => exact Nat.le_refl _
     | some b1 =>
-      simp only
+      try simp only
       cases hm : minerAdd { w.st with bal := b1 } src id delta with
       | none => exact Nat.le_refl _
       | some s2 => simp only; rw [burned_minerAdd _ _ _ _ _ hm]; exact Nat.le_refl _
   | refund src id amount signed =>
     simp only [execTx]
-    cases processFee w.st.bal src with
+    cases processFeeWith (txFeeOf w.fl) w.st.bal src with
     | none => exact Nat.le_refl _
     | some b1 =>
-      simp only
+      try simp only
       cases hm : minerRefund w.code { w.st with bal := b1 } src id amount signed with
       | none => exact Nat.le_refl _
       | some p =>
@@ -627,46 +664,93 @@ theorem execTx_burned (fuel : Nat) (w : World) (tx : Tx) : w.st.burned ≤ (exec
         simp only; rw [burned_minerRefund _ _ _ _ _ _ _ _ hm]; exact Nat.le_refl _
   | node src newAcct mainOk =>
     simp only [execTx]
-    cases processFee w.st.bal src with
+    cases processFeeWith (txFeeOf w.fl) w.st.bal src with
     | none => exact Nat.le_refl _
     | some b1 =>
-      simp only
+      try simp only
       cases hm : nodeTx { w.st with bal := b1 } src newAcct mainOk with
       | none => exact Nat.le_refl _
       | some s2 => simp only; rw [burned_nodeTx _ _ _ _ _ hm]; exact Nat.le_refl _
   | contract t =>
     simp only [execTx]
-    cases hcb : contractBefore w.st.bal t with
+    cases hcb : contractBefore w.fl w.st.bal t with
     | inl p => obtain ⟨status, b⟩ := p; exact Nat.le_refl _
     | inr p =>
       obtain ⟨b1, raw, v⟩ := p
-      simp only
+      try simp only
       split
-      · exact contractExecute_burned w.code fuel t raw v { w.st with bal := b1 }
-      · simp only [revertTo]; exact Nat.le_refl _
+      · exact contractExecute_burned w.fl hj w.code fuel t raw v { w.st with bal := b1 }
+      · rw [hj]; simp only [revertToJ_true, revertTo]; exact Nat.le_refl _
 
-theorem execTxs_burned (fuel : Nat) : ∀ (txs : List Tx) (w : World), w.st.burned ≤ (execTxs fuel w txs).1.st.burned := by
+/-- the fork flags are not touched by a transaction -/
+theorem execTx_fl (fuel : Nat) (w : World) (tx : Tx) : (execTx fuel w tx).1.fl = w.fl := by
+  cases tx with
+  | operator src dataOk targets =>
+    simp only [execTx]
+    cases processFeeWith (txFeeOf w.fl) w.st.bal src with
+    | none => rfl
+    | some b1 =>
+      try simp only
+      split
+      · rfl
+      · cases changeAssets b1 src targets <;> rfl
+  | apply src id typ stake account keysOk =>
+    simp only [execTx]
+    cases processFeeWith (txFeeOf w.fl) w.st.bal src with
+    | none => rfl
+    | some b1 => try simp only; cases minerApply { w.st with bal := b1 } src id typ stake account keysOk <;> rfl
+  | addStake src id delta =>
+    simp only [execTx]
+    cases processFeeWith (txFeeOf w.fl) w.st.bal src with
+    | none => rfl
+    | some b1 => try simp only; cases minerAdd { w.st with bal := b1 } src id delta <;> rfl
+  | refund src id amount signed =>
+    simp only [execTx]
+    cases processFeeWith (txFeeOf w.fl) w.st.bal src with
+    | none => rfl
+    | some b1 =>
+      try simp only
+      cases minerRefund w.code { w.st with bal := b1 } src id amount signed with
+      | none => rfl
+      | some p => obtain ⟨s2, pend⟩ := p; rfl
+  | node src newAcct mainOk =>
+    simp only [execTx]
+    cases processFeeWith (txFeeOf w.fl) w.st.bal src with
+    | none => rfl
+    | some b1 => try simp only; cases nodeTx { w.st with bal := b1 } src newAcct mainOk <;> rfl
+  | contract t =>
+    simp only [execTx]
+    cases hcb : contractBefore w.fl w.st.bal t with
+    | inl p => obtain ⟨status, b⟩ := p; rfl
+    | inr p =>
+      obtain ⟨b1, raw, v⟩ := p
+      try simp only
+      split <;> rfl
+
+theorem execTxs_burned (fuel : Nat) : ∀ (txs : List Tx) (w : World), w.fl.p002 = true →
+    w.st.burned ≤ (execTxs fuel w txs).1.st.burned := by
   intro txs
   induction txs with
-  | nil => intro w; simp [execTxs]
+  | nil => intro w _; simp [execTxs]
   | cons t ts ih =>
-    intro w
+    intro w hj
     simp only [execTxs]
-    exact Nat.le_trans (execTx_burned fuel w t) (ih _)
+    exact Nat.le_trans (execTx_burned fuel w hj t) (ih _ (by rw [execTx_fl]; exact hj))
 
 /-! ### the sum of balances never grows over a transaction -/
 
 theorem evmCallTop_total_le (code : Code) (fuel : Nat) (origin addr : Addr) (v : Int) (s : St) :
-    total (evmCallTop code fuel origin addr v s).1.bal ≤ total s.bal := by
+    total (evmCallTop code true fuel origin addr v s).1.bal ≤ total s.bal := by
   have hm := evmCallTop_mass code fuel origin addr v s
   unfold evmCallTop at hm ⊢
+  simp only [revertToJ_true] at hm ⊢
   split
   · exact Nat.le_refl _
   · rename_i hg
-    simp only
+    try simp only
     split
     · refine Nat.le_trans (exec_total_le _ _ _ _ _ _ _) ?_
-      simp only
+      try simp only
       by_cases hn : v < 0
       · exfalso
         have : canTransfer s.bal origin v = false := canTransfer_neg _ _ _ hn
@@ -689,15 +773,16 @@ theorem evmCallTop_total_le (code : Code) (fuel : Nat) (origin addr : Addr) (v :
     · exact Nat.le_refl _
 
 theorem evmCreateTop_total_le (code : Code) (fuel : Nat) (origin : Addr) (v : Int) (init : Script) (s : St) :
-    total (evmCreateTop code fuel origin v init s).1.bal ≤ total s.bal := by
+    total (evmCreateTop code true fuel origin v init s).1.bal ≤ total s.bal := by
   unfold evmCreateTop
+  simp only [revertToJ_true]
   split
   · exact Nat.le_refl _
   · rename_i hg
-    simp only
+    try simp only
     split
     · refine Nat.le_trans (exec_total_le _ _ _ _ _ _ _) ?_
-      simp only
+      try simp only
       by_cases hn : v < 0
       · exfalso
         have : canTransfer s.bal origin v = false := canTransfer_neg _ _ _ hn
@@ -708,20 +793,29 @@ theorem evmCreateTop_total_le (code : Code) (fuel : Nat) (origin : Addr) (v : In
         rw [total_transfer_eq s origin (freshAddr s.fresh) n hc]; exact Nat.le_refl _
     · exact Nat.le_refl _
 
-theorem contractExecute_total_le (code : Code) (fuel : Nat) (t : ContractTx) (raw : Nat) (v : Int) (s : St) :
-    total (contractExecute code fuel t raw v s).1.bal ≤ total s.bal := by
+theorem contractExecute_total_le (fl : Flags) (hj : fl.p002 = true) (code : Code) (fuel : Nat) (t : ContractTx) (raw : Nat) (v : Int) (s : St) :
+    total (contractExecute fl code fuel t raw v s).1.bal ≤ total s.bal := by
   unfold contractExecute
-  simp only
+  rw [hj]
+  try simp only
   split
   · exact Nat.le_refl _
   · have key : ∀ r : St × Bool, total r.1.bal ≤ total s.bal →
         total ({ r.1 with bal := chargeGas r.1.bal t.src t.gasUsed } : St).bal ≤ total s.bal := by
       intro r hr
-      simp only
+      try simp only
       rw [chargeGas_total]; exact hr
     cases ht : t.target with
-    | none => exact key _ (evmCreateTop_total_le code fuel t.src v t.init s)
-    | some a => exact key _ (evmCallTop_total_le code fuel t.src a v s)
+    | none =>
+      try simp only
+      split
+      · exact evmCreateTop_total_le code fuel t.src v t.init s
+      · exact key _ (evmCreateTop_total_le code fuel t.src v t.init s)
+    | some a =>
+      try simp only
+      split
+      · exact evmCallTop_total_le code fuel t.src a v s
+      · exact key _ (evmCallTop_total_le code fuel t.src a v s)
 
 theorem total_minerApply_le (s s2 : St) (src : Addr) (id typ stake : Nat) (account : Addr) (keysOk : Bool)
     (h : minerApply s src id typ stake account keysOk = some s2) : total s2.bal ≤ total s.bal := by
@@ -748,7 +842,7 @@ theorem bal_minerRefund (code : Code) (s s2 : St) (src : Addr) (id : Nat) (amoun
   · cases amount with
     | none => simp at h
     | some a =>
-      simp only at h
+      try simp only at h
       cases hg : getRefundStake s.reg (hasCodeIn code) id src a with
       | none => simp [hg] at h
       | some p =>
@@ -778,16 +872,16 @@ theorem total_nodeTx_le (s s2 : St) (src newAcct : Addr) (mainOk : Bool) (h : no
     total s2.bal ≤ total s.bal := total_nodeTxWith_le nodeFee s s2 src newAcct mainOk h
 
 /-- **No transaction raises the sum of all balances.** -/
-theorem execTx_total_le (fuel : Nat) (w : World) (tx : Tx) :
+theorem execTx_total_le (fuel : Nat) (w : World) (hj : w.fl.p002 = true) (tx : Tx) :
     total (execTx fuel w tx).1.st.bal ≤ total w.st.bal := by
   cases tx with
   | operator src dataOk targets =>
     simp only [execTx]
-    cases hf : processFee w.st.bal src with
+    cases hf : processFeeWith (txFeeOf w.fl) w.st.bal src with
     | none => exact Nat.le_refl _
     | some b1 =>
-      have h1 := processFee_total _ _ _ hf
-      simp only
+      have h1 := processFeeWith_total _ _ _ _ hf
+      try simp only
       split
       · simp only; omega
       · cases hc : changeAssets b1 src targets with
@@ -795,52 +889,52 @@ theorem execTx_total_le (fuel : Nat) (w : World) (tx : Tx) :
         | some b2 => have := changeAssets_total src targets b1 b2 hc; simp only; omega
   | apply src id typ stake account keysOk =>
     simp only [execTx]
-    cases hf : processFee w.st.bal src with
+    cases hf : processFeeWith (txFeeOf w.fl) w.st.bal src with
     | none => exact Nat.le_refl _
     | some b1 =>
-      have h1 := processFee_total _ _ _ hf
-      simp only
+      have h1 := processFeeWith_total _ _ _ _ hf
+      try simp only
       cases hm : minerApply { w.st with bal := b1 } src id typ stake account keysOk with
       | none => simp only; omega
       | some s2 => have := total_minerApply_le _ _ _ _ _ _ _ _ hm; simp only at this ⊢; omega
   | addStake src id delta =>
     simp only [execTx]
-    cases hf : processFee w.st.bal src with
+    cases hf : processFeeWith (txFeeOf w.fl) w.st.bal src with
     | none => exact Nat.le_refl _
     | some b1 =>
-      have h1 := processFee_total _ _ _ hf
-      simp only
+      have h1 := processFeeWith_total _ _ _ _ hf
+      try simp only
       cases hm : minerAdd { w.st with bal := b1 } src id delta with
       | none => simp only; omega
       | some s2 => have := total_minerAdd_le _ _ _ _ _ hm; simp only at this ⊢; omega
   | refund src id amount signed =>
     simp only [execTx]
-    cases hf : processFee w.st.bal src with
+    cases hf : processFeeWith (txFeeOf w.fl) w.st.bal src with
     | none => exact Nat.le_refl _
     | some b1 =>
-      have h1 := processFee_total _ _ _ hf
-      simp only
+      have h1 := processFeeWith_total _ _ _ _ hf
+      try simp only
       cases hm : minerRefund w.code { w.st with bal := b1 } src id amount signed with
       | none => simp only; omega
       | some p =>
         obtain ⟨s2, pend⟩ := p
         have := bal_minerRefund _ _ _ _ _ _ _ _ hm
-        simp only at this ⊢
+        try simp only at this ⊢
         rw [this]; omega
   | node src newAcct mainOk =>
     simp only [execTx]
-    cases hf : processFee w.st.bal src with
+    cases hf : processFeeWith (txFeeOf w.fl) w.st.bal src with
     | none => exact Nat.le_refl _
     | some b1 =>
-      have h1 := processFee_total _ _ _ hf
-      simp only
+      have h1 := processFeeWith_total _ _ _ _ hf
+      try simp only
       cases hm : nodeTx { w.st with bal := b1 } src newAcct mainOk with
-      | none => simp only; omega
+      | none => simp only [hj, Bool.true_or, if_true]; omega
       | some s2 => have := total_nodeTx_le _ _ _ _ _ hm; simp only at this ⊢; omega
   | contract t =>
     simp only [execTx]
-    have hb := contractBefore_total w.st.bal t
-    cases hcb : contractBefore w.st.bal t with
+    have hb := contractBefore_total w.fl w.st.bal t
+    cases hcb : contractBefore w.fl w.st.bal t with
     | inl p =>
       obtain ⟨status, b⟩ := p
       rw [hcb] at hb
@@ -850,14 +944,17 @@ theorem execTx_total_le (fuel : Nat) (w : World) (tx : Tx) :
       obtain ⟨b1, raw, v⟩ := p
       rw [hcb] at hb
       simp only [beforeBal] at hb
-      simp only
-      have hx := contractExecute_total_le w.code fuel t raw v { w.st with bal := b1 }
-      simp only at hx
+      try simp only
+      have hx := contractExecute_total_le w.fl hj w.code fuel t raw v { w.st with bal := b1 }
+      try simp only at hx
       split
       · simp only; omega
-      · simp only
+      · rw [hj]
+        simp only [revertToJ_true]
         split
-        · simp only [revertTo]; rw [deductGasFee_total]; omega
+        · split
+          · simp only [revertTo]; rw [deductGasFee_total]; omega
+          · simp only [revertTo]; omega
         · simp only [revertTo]; omega
 
 /-! ### blocks -/
@@ -867,27 +964,27 @@ def nodeFeeSum : List Tx → List Status → Nat
   | t :: ts, s :: ss => nodeFeeBy t s + nodeFeeSum ts ss
   | _, _ => 0
 
-theorem execTxs_mass (fuel : Nat) : ∀ (txs : List Tx) (w : World),
+theorem execTxs_mass (fuel : Nat) : ∀ (txs : List Tx) (w : World), w.fl.p002 = true →
     wmass (execTxs fuel w txs).1 + (nodeFeeSum txs (execTxs fuel w txs).2 : Int) = wmass w := by
   intro txs
   induction txs with
-  | nil => intro w; simp [execTxs, nodeFeeSum]
+  | nil => intro w _; simp [execTxs, nodeFeeSum]
   | cons t ts ih =>
-    intro w
+    intro w hj
     simp only [execTxs, nodeFeeSum]
-    have h1 := execTx_mass fuel w t
-    have h2 := ih (execTx fuel w t).1
+    have h1 := execTx_mass fuel w hj t
+    have h2 := ih (execTx fuel w t).1 (by rw [execTx_fl]; exact hj)
     omega
 
-theorem execTxs_total_le (fuel : Nat) : ∀ (txs : List Tx) (w : World),
+theorem execTxs_total_le (fuel : Nat) : ∀ (txs : List Tx) (w : World), w.fl.p002 = true →
     total (execTxs fuel w txs).1.st.bal ≤ total w.st.bal := by
   intro txs
   induction txs with
-  | nil => intro w; simp [execTxs]
+  | nil => intro w _; simp [execTxs]
   | cons t ts ih =>
-    intro w
+    intro w hj
     simp only [execTxs]
-    exact Nat.le_trans (ih _) (execTx_total_le fuel w t)
+    exact Nat.le_trans (ih _ (by rw [execTx_fl]; exact hj)) (execTx_total_le fuel w hj t)
 
 theorem execTxs_length (fuel : Nat) : ∀ (txs : List Tx) (w : World), (execTxs fuel w txs).2.length = txs.length := by
   intro txs
@@ -915,7 +1012,7 @@ theorem afterBlock_exact (b : Bal) (e : Escrow) (h : Nat) (added : Escrow) :
     total (afterBlock b e h added).1 + escrowTotal (afterBlock b e h added).2
       = total b + escrowTotal e + escrowTotal added := by
   unfold afterBlock checkAndMove
-  simp only
+  try simp only
   have h1 := refundMove_total (dueAt (e ++ added) h) b
   have h2 := escrow_split (e ++ added) h
   have h3 := escrowTotal_append e added
@@ -930,13 +1027,13 @@ theorem stakeSum_markVisible : ∀ r : Reg, stakeSum (markVisible r) = stakeSum 
   | cons m r ih => simp only [markVisible, stakeSum, ih]
 
 /-- A whole block: the conserved quantity grows by exactly the block reward and shrinks by the node fees. -/
-theorem execBlock_mass (fuel : Nat) (w : World) (h : Nat) (txs : List Tx) (rewards : Escrow) :
+theorem execBlock_mass (fuel : Nat) (w : World) (hj : w.fl.p002 = true) (h : Nat) (txs : List Tx) (rewards : Escrow) :
     mass (execBlock fuel w h txs rewards).1.st + (nodeFeeSum txs (execBlock fuel w h txs rewards).2 : Int)
       = mass w.st + (escrowTotal rewards : Int) := by
   unfold execBlock
-  simp only
+  try simp only
   generalize hw0 : ({ w with ctx := { gasUsed := none, pending := [] }, st := { w.st with height := h } } : World) = w0
-  have hm := execTxs_mass fuel txs w0
+  have hm := execTxs_mass fuel txs w0 (by subst hw0; exact hj)
   have h0 : wmass w0 = mass w.st := by
     subst hw0
     unfold wmass mass
@@ -947,7 +1044,7 @@ theorem execBlock_mass (fuel : Nat) (w : World) (h : Nat) (txs : List Tx) (rewar
   have hp := escrowTotal_append r.1.ctx.pending rewards
   unfold wmass at hm
   unfold mass at hm ⊢
-  simp only
+  try simp only
   rw [stakeSum_markVisible]
   omega
 
